@@ -13,6 +13,8 @@ pub fn dispatch(op: &str, req: &Value) -> Value {
         "render" => render(req),
         "preset_schema" => preset_schema(req),
         "bump" => bump(req),
+        "branch_rules" => branch_rules(req),
+        "template" => template(req),
         _ => json!({"error": format!("unknown op {op}")}),
     }
 }
@@ -229,5 +231,48 @@ fn bump(req: &Value) -> Value {
     match zerv.apply_component_processing(&args) {
         Ok(()) => json!({"ok": true, "vars": vars_to_json(&zerv.vars), "schema": format!("{:?}", zerv.schema)}),
         Err(e) => json!({"ok": false, "err": e.to_string()}),
+    }
+}
+
+fn branch_rules(req: &Value) -> Value {
+    use zerv::cli::flow::args::branch_rules::BranchRulesConfig;
+    use zerv::cli::flow::branch_rules::{BranchRule, BranchRules, PostMode, PreReleaseLabel as FL};
+    let rules = if req["rules"].is_null() {
+        BranchRules::default_rules()
+    } else {
+        let v: Vec<BranchRule> = req["rules"].as_array().unwrap().iter().map(|r| BranchRule {
+            pattern: r[0].as_str().unwrap().to_string(),
+            pre_release_label: match r[1].as_str().unwrap() { "alpha" => FL::Alpha, "beta" => FL::Beta, _ => FL::Rc },
+            pre_release_num: r[2].as_u64().map(|x| x as u32),
+            post_mode: if r[3].as_str() == Some("tag") { PostMode::Tag } else { PostMode::Commit },
+        }).collect();
+        match BranchRules::new(v) { Ok(r) => r, Err(e) => return json!({"error": e.to_string()}) }
+    };
+    let mut cfg = BranchRulesConfig { pre_release_label: req["label"].as_str().map(|s| s.to_string()),
+        pre_release_num: req["num"].as_u64().map(|x| x as u32), post_mode: req["mode"].as_str().map(|s| s.to_string()), branch_rules: rules };
+    let mut vars = ZervVars::default();
+    if !req["branch"].is_null() { vars.bumped_branch = Some(cps_to_string(&req["branch"])); }
+    let zerv = Zerv { schema: ZervSchema::new(vec![Component::Var(Var::Major)], vec![], vec![]).unwrap(), vars };
+    match cfg.apply_branch_rules(&zerv) {
+        Ok(()) => json!({"ok": true, "label": cfg.pre_release_label, "num": cfg.pre_release_num, "mode": cfg.post_mode}),
+        Err(e) => json!({"ok": false, "err": e.to_string()}),
+    }
+}
+
+/// render a template string against a Zerv built from `vars` (schema: major only); as = "string" | "u32"
+fn template(req: &Value) -> Value {
+    use zerv::cli::utils::template::Template;
+    let zerv = Zerv { schema: ZervSchema::new(vec![Component::Var(Var::Major)], vec![], vec![]).unwrap(), vars: vars_of(&req["vars"]) };
+    let text = cps_to_string(&req["template"]);
+    if req["as"].as_str() == Some("u32") {
+        match Template::<u32>::new(text).render(Some(&zerv)) {
+            Ok(v) => json!({"ok": true, "value": v}),
+            Err(e) => json!({"ok": false, "err": e.to_string()}),
+        }
+    } else {
+        match Template::<String>::new(text).render(Some(&zerv)) {
+            Ok(v) => json!({"ok": true, "value": v.map(|s| string_to_cps(&s))}),
+            Err(e) => json!({"ok": false, "err": e.to_string()}),
+        }
     }
 }
